@@ -16,6 +16,7 @@ import ToastyVerif.Model.Stage
 import ToastyVerif.Model.Lock
 import ToastyVerif.Model.Walk
 import ToastyVerif.Model.Toast
+import ToastyVerif.Model.Lookup
 
 namespace Driver
 
@@ -596,6 +597,15 @@ def handleToast (a : List String) : String :=
       let t1 := (Toast.level1 tvtx (pl == "p")).getD s (Toast.dummy tvtx)
       (Toast.descend tmid (fun t => cs.getD (t.pos.n - 1) 0) cs.length t1).str
     | _, _ => "bad-op"
+  | ["level1", pl, lon] => match parseRat lon with
+    | some l =>
+      let i := Lookup.selectLevel1 (pl == "p") l
+      let r := (Toast.level1Table (pl == "p")).getD i ((9, 9), (.N, .N, .N, .N), false)
+      s!"({r.1.1},{r.1.2})"
+    | none => "bad-op"
+  | "pick" :: scores => match scores.mapM String.toInt? with
+    | some sc => toString (Toast.pick sc)
+    | none => "bad-op"
   | "lookup" :: pl :: start :: scores => match start.toNat?, scores.mapM String.toInt? with
     | some s, some sc =>
       let t1 := (Toast.level1 tvtx (pl == "p")).getD s (Toast.dummy tvtx)
